@@ -712,6 +712,8 @@ class Exec:
             # type(x).__name__ of a dynamically typed value: some string (uninterpreted function of the value)
             f = z3.Function("py_class_name", Val, z3.StringSort())
             return S(f(ops.to_val(base[1])))
+        if isinstance(base, ClassRef) and base.cf is None and base.name == "os" and attr == "sep":
+            return S(z3.StringVal("/"))      # [A] POSIX path separator (the sandbox and the project's CI are POSIX)
         if isinstance(base, ClassRef) and attr in ("__name__", "__qualname__"):
             return S(z3.StringVal(base.name)) if base.name else S(z3.String(fresh_name("class_name")))
         if isinstance(base, ElemRef):
@@ -1442,6 +1444,12 @@ class Exec:
                     return I(o.length)
                 if isinstance(o, HRec):
                     return I(len(o.items))
+                if isinstance(o, HDict):
+                    # the size of a symbolic dict: an uninterpreted function of its domain, non-negative, zero iff the dict is falsy
+                    f = z3.Function("dict_len", o.dom.sort(), z3.IntSort())
+                    n_ = f(o.dom)
+                    self.pc.append(z3.And(n_ >= 0, (n_ > 0) == ops.dict_nonempty(o.dom)))
+                    return I(n_)
             if isinstance(v, SV) and v.kind in ("str", "val"):
                 if v.kind == "val":
                     self.maybe_raise(z3.Not(ops.tag_is(v, "str")), "TypeError", "len of non-str")
@@ -1704,6 +1712,8 @@ class Exec:
             return S(ops.py_upper(s))
         if name == "find":
             return I(z3.IndexOf(s, sarg(0), 0))
+        if name == "rfind" and len(args) == 1:
+            return I(z3.LastIndexOf(s, sarg(0)))
         if name == "startswith":
             return B(z3.PrefixOf(sarg(0), s))
         if name == "endswith":
